@@ -293,10 +293,22 @@ func RunC08(ep *core.Episode) {
 	srv := NewSrv(ep, nw, SrvOpts{BufSize: 4096, IdleTimeout: 60 * time.Second})
 	accept := tp.Chance("acceptrange", 3, 4)
 	cacheDur := tp.PickDur("cachedur", 20*time.Millisecond, 100*time.Millisecond, time.Second)
-	// 6, 7: the same, and the statement-level yields the driver inserts into fs.go are honoured in this episode
+	// 4..7: the same, and the statement-level yields the driver inserts into fs.go are honoured in this episode
 	gk := tp.Choose("genidx", 8)
 	genIdx := gk%2 == 1
-	astOn := gk >= 6 && os.Getenv("VSIM_AST_OFF") == ""
+	astOn := gk >= 4 && os.Getenv("VSIM_AST_OFF") == ""
+	// an episode honours a window of 150 (every other one: 1000) consecutive inserted yields:
+	// statement-level interleaving is 20-50 times as expensive as the rest
+	astFrom, astTo := 0, 0
+	if astOn {
+		// (early statements more often: first requests open, compress and cache the files)
+		astFrom = []int{0, 0, 40, 80, 120, 160, 200, 250, 300, 400, 500, 650, 800, 1000, 1300, 1700}[tp.Choose("astfrom", 16)]
+		astTo = astFrom + 150
+		if gk >= 6 {
+			astTo = astFrom + 1000
+		}
+	}
+	astSeen := 0
 	fs := &app.FS{Root: root, AcceptByteRange: accept, IndexNames: []string{"index.html"}, GenerateIndexPages: genIdx, Compress: compress, CacheDuration: cacheDur,
 		PathRewrite: app.NewPathSlashesStripper(1)}
 	h := fs.NewRequestHandler()
@@ -320,7 +332,17 @@ func RunC08(ep *core.Episode) {
 		ep.Probe("inserted-yields")
 		verifhook.OnYield = func(site string, obj interface{}) {
 			// a goroutine that is no task yet (the cache cleaner) becomes one when it has to wait for a lock a parked task holds
-			if strings.HasPrefix(site, "ast") && (S.Known() || site == "ast-lock") {
+			if !strings.HasPrefix(site, "ast") {
+				return
+			}
+			if site == "ast-lock" {
+				ep.ProbeN("inserted-yield-taken", 1)
+				S.Yield(site)
+				return
+			}
+			// (counting is cheap, asking the scheduler who is calling is not)
+			astSeen++
+			if astSeen > astFrom && astSeen <= astTo && S.Known() {
 				ep.ProbeN("inserted-yield-taken", 1)
 				S.Yield(site)
 			}
@@ -461,6 +483,7 @@ func RunC08(ep *core.Episode) {
 		maxMods = tp.Choose("nmods", 4)
 	}
 	mods := 0
+	var removedFiles []string
 	phase2 := false
 	phase1Over := func() bool {
 		for _, c := range conns {
@@ -516,6 +539,7 @@ func RunC08(ep *core.Episode) {
 						os.Remove(pth)
 						c08PrivDirty[name] = true
 						versions[name] = append(cur, c08ver{deleted: true})
+						removedFiles = append(removedFiles, name)
 						ep.Fault("file-removed")
 						ep.Logf("fs: %s removed", name)
 						return
@@ -557,6 +581,9 @@ func RunC08(ep *core.Episode) {
 			}
 			r := &c08req{method: "GET", final: true}
 			r.file = modTargets[tp.Choose("finalfile", len(modTargets))]
+			if len(removedFiles) > 0 && tp.Choose("finalremoved", 2) == 0 {
+				r.file = removedFiles[tp.Choose("finalremovedk", len(removedFiles))] // a file that has been removed meanwhile
+			}
 			r.path = "/static" + r.file
 			r.gzip = tp.Choose("finalgzip", 2) == 1
 			if tp.Choose("finalrange", 3) == 1 {
@@ -653,7 +680,7 @@ func RunC08(ep *core.Episode) {
 			}
 		}
 		if !c.rst && !lenient && len(c.cl.Resps) != len(c.reqs) {
-			ep.Fail("C08.body", "connection %s: %d responses for %d requests (leftover %dB, serve err %v)", c.sc.Name, len(c.cl.Resps), len(c.reqs), len(c.cl.Leftover()), c.sc.Err)
+			ep.Fail("C08.body", "connection %s: %d responses for %d requests (leftover %dB, serve err %v)", c.sc.Name, len(c.cl.Resps), len(c.reqs), len(c.cl.Leftover()), c08ErrText(c.sc.Err))
 			return
 		}
 	}
@@ -876,4 +903,16 @@ func c08Match(r *c08req, m *wire.Msg, body []byte, gz, head, useRange bool, v c0
 		return "C08.headers", fmt.Sprintf("unexpected status %d", m.Status)
 	}
 	return "", ""
+}
+
+// c08ErrText renders an error without the per-process part of the private tree's path (replays run in other processes).
+func c08ErrText(err error) string {
+	if err == nil {
+		return "<nil>"
+	}
+	t := err.Error()
+	if c08PrivDir != "" {
+		t = strings.ReplaceAll(t, c08PrivDir, "<private tree>")
+	}
+	return t
 }
